@@ -471,6 +471,30 @@ pub fn generate(repo: &PathBuf) -> Result<String, String> {
         }
     };
 
+    // ---- flush_historic_quoting_metrics: the payment count is written in place (no spawned task that could be overtaken)
+    let fl = impl_fn(&file, "NodeRecordStore", None, "flush_historic_quoting_metrics")?;
+    let fstop2: Vec<&str> = stop.iter().copied().collect();
+    let c = calls_in_blocks(&with_private_helpers(&file, &fl.block, &fstop2));
+    let fl_body = ts(&fl.block);
+    if !c.paths.iter().any(|p| p.ends_with("File::create")) || !c.methods.iter().any(|m| m == "serialize") || !fl_body.contains("received_payment_count:self.received_payment_count") {
+        return Err("flush_historic_quoting_metrics: expected File::create(<metrics file>) + serialize of { received_payment_count: self.received_payment_count, .. }".into());
+    }
+    let flush_spawned = c.paths.iter().any(|p| p == "spawn" || p.ends_with("::spawn") || p.ends_with("spawn_blocking"));
+    let flush_synchronous = !flush_spawned;
+    for (f, who) in [("payment_received", "payment_received"), ("with_config", "with_config")] {
+        let item = impl_fn(&file, "NodeRecordStore", None, f)?;
+        let c = calls_in_block(&item.block);
+        if !c.methods.iter().any(|m| m == "flush_historic_quoting_metrics") {
+            return Err(format!("{who}: expected a call of self.flush_historic_quoting_metrics()"));
+        }
+    }
+    let pr = impl_fn(&file, "NodeRecordStore", None, "payment_received")?;
+    let pr_body = ts(&pr.block);
+    match (pr_body.find("received_payment_count"), pr_body.find("flush_historic_quoting_metrics")) {
+        (Some(a), Some(b)) if a < b => {}
+        _ => return Err("payment_received: expected the counter update before the flush".into()),
+    }
+
     // ---- lib.rs send_local_swarm_cmd: the notification waits for room on the channel (spawned `send().await`)
     let libf = parse_file(&repo.join("ant-networking/src/lib.rs"))?;
     let slc = free_fn(&libf, "send_local_swarm_cmd")?;
@@ -580,6 +604,7 @@ pub fn generate(repo: &PathBuf) -> Result<String, String> {
     s.push_str(&format!("/-- `RecordStore::put` refuses `len >= max_value_bytes` (otherwise `>`); `put_verified` has no size test -/\ndef putSizeInclusive : Bool := {}\n", lean_bool(put_inclusive)));
     s.push_str(&format!("/-- `get_record_from_bytes`: a decryption failure yields no record (`None`) — otherwise the raw file bytes are handed back -/\ndef decryptFailureSkips : Bool := {}\n", lean_bool(decrypt_failure_skips)));
     s.push_str(&format!("/-- `send_local_swarm_cmd` spawns a task that awaits room on the command channel (otherwise `try_send`: dropped when full) -/\ndef notificationSenderWaits : Bool := {}\n", lean_bool(notification_sender_waits)));
+    s.push_str(&format!("/-- `flush_historic_quoting_metrics` writes the payment count in place, inside `payment_received` / `with_config` (otherwise: in a spawned task carrying the count captured at spawn time) -/\ndef flushSynchronous : Bool := {}\n", lean_bool(flush_synchronous)));
     s.push_str(&format!("/-- `PutLocalRecord` handler (cmd.rs): wire tag of the record kind ↦ 0 Chunk | 1 Scratchpad | 2 NonChunk(content hash); `none` = refused -/\ndef localPutTable : List (Nat × Option Nat) := [{table_lean}]\n"));
     s.push_str("end SafeNet.Gen.Store\n");
     Ok(s)
